@@ -484,6 +484,7 @@ L1_RULE = ("generated lookup/store/advance histories (40-200 ops + fill probe, r
            "run on the real engines (GlobalCache / ThreadLocalCache / AsyncGlobalCache) with harness-owned storage and a virtual clock; after every operation the result, the whole store "
            "(keys, values) and the hit/miss counters are compared with the specification model (belief monitor). ")
 
+EXTRAS_RULE = ("EXTRAS: at the start of every l2mon process 18 functions outside the descriptor table (12 that call themselves by name from their own body, 6 that return nothing) are called 40 times each: value = the undecorated recursion's, every argument of an unbounded cache ran its body exactly once however it was reached, a repeat of the previous call runs nothing (FIFO/LRU), listed entries <= limit, no panic, no thread blocking on itself. ")
 L2_RULE = ("MACRO LEVEL: generated multi-cache histories (30-120 operations + closing sweep) over groups of 1-6 functions of a generated corpus of 554 #[cache]/#[cache_async] functions "
            "(attribute presence/values x 10 argument shapes x free fn/&self/&mut self/self x 10 return kinds), calls issued from 1-4 worker threads (serialised), bodies scripted by the harness "
            "(fresh value per execution or deterministic, Ok/Err, payload size, cache_if and invalidate_on verdicts), virtual clock, conditional and group invalidations, stats resets; after every "
@@ -511,7 +512,7 @@ prop("C02", ["key", "l2"], "exploration",
      "KEY LEVEL: 50 signature shapes (1-5 arguments over integers, floats, bool, char, String, &str, tuples, Option, nested Option, Vec, slices, Debug-derived struct and enum, &self methods with string-bearing receivers), each as #[cache] and #[cache_async], bodies return a fresh serial. "
      "Pairs of argument tuples a != b (structural/bitwise inequality, NaN excluded) are drawn from an adversarial alphabet (| \" \\ ' , ( ) [ ] space newline NUL DEL, the words Some/None, quote-separator-quote sequences), by single-position mutation, and by boundary shifting "
      "(render two neighbouring arguments with separators '', '|', ',', ' ', '\"|\"', ', ', move the boundary, re-parse); f(a); f(b); f(a) must execute twice and serve a its own serial; every 32 pairs the number of listed key strings must equal the number of distinct tuples stored. "
-     "Non-trivial/distinct = distinct (function, a, b) pairs. " + L2_RULE + "There, a learned slot->key-string map must stay injective.",
+     "Strings: one in ten is several hundred bytes long and is mutated in its last characters; hand-written shapes cover parameter names a macro might use itself, parameters bound through patterns, and an argument whose CacheableKey calls another cached function. Non-trivial/distinct = distinct (function, a, b) pairs. " + L2_RULE + "There, a learned slot->key-string map must stay injective.",
      COMMON_ASSUME + ["'differ' means structural inequality of the argument values (0.0 and -0.0 differ; NaN is excluded)"], ("C02", "pairs"))
 prop("C17", ["conc", "l2", "miri"], "exploration",
      CONC_RULE + "Non-trivial = a schedule that ran to completion or to a diagnosed deadlock. " + REENT_RULE + L2_RULE,
@@ -522,7 +523,7 @@ prop("C18", ["conc", "miri", "tsan"], "exploration",
      CONC_RULE + "Non-trivial = a quiescent state reached after a concurrent phase and probed.",
      COMMON_ASSUME + ["queue entries whose key is no longer stored are tolerated, as the property says; a stored key the queue does not know shows up in the eviction probe (FIFO/LRU) or as an exceeded bound"], ("C18", "quiescent_states_checked"))
 prop("C03", ["l2", "conc"], "exploration",
-     CONC_RULE + L2_RULE + "Focus: functions with no limit/ttl/max_memory/cache_if/invalidate_on. Non-trivial = a repeat call for an argument tuple already stored (must not run the body; once per thread for scope=thread); at the end of every history without invalidations the execution count per distinct tuple must be exactly 1. Distinct = distinct (function, tuple, stored-before?, thread).",
+     CONC_RULE + L2_RULE + EXTRAS_RULE + "Focus: functions with no limit/ttl/max_memory/cache_if/invalidate_on. Non-trivial = a repeat call for an argument tuple already stored (must not run the body; once per thread for scope=thread); at the end of every history without invalidations the execution count per distinct tuple must be exactly 1. Distinct = distinct (function, tuple, stored-before?, thread).",
      COMMON_ASSUME, ("C03", "repeat_calls_on_unbounded_caches"))
 prop("C09", ["l2", "conc"], "exploration",
      CONC_RULE + "For Result functions on unbounded, never-invalidated caches: no body execution may be invoked after an execution that returned Ok has returned (Err outcomes scripted per call, also concurrently). " + L2_RULE + "Focus: functions returning Result / std::result::Result without cache_if (all scopes, policies, limits, with and without max_memory). Outcomes follow an arbitrary Ok/Err script per call. Non-trivial = a scripted Err outcome; distinct = distinct (function, tuple, cached?, outcome, previous non-store reason).",
@@ -543,7 +544,7 @@ prop("C14", ["l2", "conc"], "exploration",
      CONC_RULE + L2_RULE + "Focus: every function called from 2-4 worker threads in random serial orders; scope=thread functions have one model per thread, global/async ones a single shared model. Non-trivial = a call on a multi-thread history; distinct = distinct (function, tuple, calling thread, thread that stored it, cached?).",
      COMMON_ASSUME + ["free-running thread interleavings are covered by the concurrency monitor, not here"], ("C14", "thread_scope_calls_multi_actor"))
 prop("C15", ["l2", "conc"], "exploration",
-     CONC_RULE + L2_RULE + "Focus: global and async functions (custom names included): stats_registry::get(name) must equal the model's hit/miss counters after every call, invalidation and reset; a reset of one name must leave the others unchanged. Non-trivial = a comparison; distinct = distinct (function, hits, misses) triples.",
+     CONC_RULE + L2_RULE + "Focus: global and async functions (custom names included): stats_registry::get(name) must equal the model's hit/miss counters after every call, invalidation and reset; a reset of one name must leave the others unchanged. Under concurrency every statistics snapshot read by a thread program must lie within what the calls invoked / returned around it allow (free-running mode adds a statistics hammer: several threads hitting one entry while another reads); every process first registers two caches under one name. Non-trivial = a comparison; distinct = distinct (function, hits, misses) triples.",
      COMMON_ASSUME, ("C15", "stats_comparisons"))
 prop("C19", ["bad", "l1", "l2"], "translation_validation",
      "Translation validation by differential execution: (a) the generated corpus of 554 functions (attribute presence/values x 10 argument shapes x free fn/&self/&mut self/self x 10 return kinds x both macros) must compile; "
@@ -806,7 +807,7 @@ def replay(path):
         cargo_build(["l2"])
         r = subprocess.run([bin_path("concmon"), "--replay", path, "--out", "/dev/null"], cwd=ROOT, env=ENV)
         sys.exit(r.returncode)
-    if mon == "l2mon":
+    if mon in ("l2mon", "l2mon-extras"):
         cargo_build(["l2"])
         r = subprocess.run([bin_path("l2mon"), "--replay", path, "--out", "/dev/null"], cwd=ROOT, env=ENV)
         sys.exit(r.returncode)
